@@ -50,7 +50,8 @@ MCIterate == \E rcv \in BOOLEAN, src \in Sources, inv \in B(Faults), fail \in B(
         Iterate(rcv, src, <<0, 0>>, <<0, 0>>, inv, fail, mi, sf)
   /\ UNCHANGED <<nPeer, nUser>>
 
-MCNext == MCPeerSend \/ MCArrive \/ MCPeerFin \/ MCPeerReset \/ MCUser \/ MCTick \/ MCIterate
+MCPeerDeaf == Faults /\ sock = "open" /\ st # 4 /\ PeerDeaf /\ UNCHANGED <<nPeer, nUser>>
+MCNext == MCPeerSend \/ MCArrive \/ MCPeerFin \/ MCPeerReset \/ MCPeerDeaf \/ MCUser \/ MCTick \/ MCIterate
 MCSpec == MCInit /\ [][MCNext]_mcvars /\ WF_mcvars(MCIterate) /\ WF_mcvars(MCTick) /\ WF_mcvars(MCArrive)
 
 (* liveness: the provider always comes home *)
